@@ -134,7 +134,7 @@ rotate_files = dict(
                 methods={'size': 'DQ_size', 'max_backup_files': 'CFG_max_backup_files', 'overwrite_rolled_files': 'CFG_overwrite_rolled_files', 'pop_back': 'DQ_pop_back'},
                 pre_rules=[(r'base_type::flush_sink\(\)\s*;\s*base_type::fsync_file\(true\)\s*;', 'BASE_flush_and_fsync(self);', 1),
                            (r'_get_file_size\(this->_filename\)', 'GET_FILE_SIZE(self)', 1), (r'this->close_file\(\)\s*;', 'CLOSE_FILE(self);', 1),
-                           (r'std::string\s+datetime_suffix\s*;.*?(?=if\s*\(\s*_created_files\.size\(\)\s*>\s*_config\.max_backup_files\(\)\s*\)\s*\{\s*fs::path)', 'RENAME_CHAIN(self);\n', 1),
+                           (r'std::string\s+datetime_suffix\s*;.*?(?=if\s*\(\s*_created_files\.size\(\)[^{};]*\)\s*\{\s*fs::path)', 'RENAME_CHAIN(self);\n', 1),
                            (r'fs::path\s+const\s+removed_file\s*=\s*_get_filename\s*\(.*?\)\s*;\s*_remove_file\(removed_file\)\s*;', 'REMOVE_BACK_FILE(self);', 1),
                            (r'_created_files\.emplace_front\(this->_filename,\s*0,\s*std::string\{\}\)\s*;', 'DQ_emplace_front_current(&_created_files);', 1),
                            (r'this->open_file\(this->_filename,\s*"w"\)\s*;', 'OPEN_FILE_W(self);', 1)],
